@@ -265,8 +265,10 @@ def run(ctx):
             status, detail = 'obligation-failed', out[-1500:]
     except Shape as e:
         status, detail = 'shape-not-recognised', str(e)
-    except (OSError, UnicodeDecodeError, KeyError, IndexError) as e:
-        status, detail = 'shape-not-recognised', 'cannot read the source: %s' % e
+    except build.BuildError:
+        raise
+    except Exception as e:                       # whatever the source looks like, the translator must not take the check down
+        status, detail = 'shape-not-recognised', 'the translator could not read the source: %s: %s' % (type(e).__name__, e)
     info['status'] = status
     if detail:
         info['detail'] = detail[-800:]
